@@ -121,6 +121,10 @@ class DictT(Term):
 
 class Cond(Term):
     def __init__(self, test, a, b):
+        # canonical polarity: a test `x is None` selects the *absent* case, so it is kept as `x is not None` with the
+        # branches exchanged (the source model orients two-armed ifs on the positive comparison, see vt/model.py)
+        if isinstance(test, IsNone) and not test.neg:
+            test, a, b = IsNone(test.t, True), b, a
         self.test, self.a, self.b = test, a, b
 
     def syms(self):
@@ -605,6 +609,8 @@ class ActionEval(object):
                 if isinstance(a, Const) and isinstance(b, Const):
                     return Const(a.v == b.v)
                 return Eq(a, b)
+            if isinstance(e.ops[0], ast.NotEq) and isinstance(a, Const) and isinstance(b, Const):
+                return Const(a.v != b.v)
             if isinstance(e.ops[0], (ast.Is, ast.IsNot)) and isinstance(b, Const) and b.v is None:
                 return IsNone(a, isinstance(e.ops[0], ast.IsNot))
             if isinstance(e.ops[0], ast.In) and isinstance(b, DictT):
